@@ -402,12 +402,14 @@ def _norm(xs):
     return sorted(list(x) if isinstance(x, (list, tuple)) else x for x in xs)
 
 
-def compare_state(q, got) -> List[Tuple[str, Any, Any]]:
-    """q: SObs printed by TLC for the state; got: World.observe()."""
+def compare_state(q, got, tracked) -> List[Tuple[str, Any, Any]]:
+    """q: SObs printed by TLC for the state; got: World.observe(); tracked: the state's tracked regions.
+    The by-full-ID lookup of a region is judged while the region is tracked (for an untracked region it is a
+    filter of the session table by handle and shows the regionless objects attributed to it)."""
     bad = []
     for clause, exp, g in (("idx.session", _norm(q["sess"]), got["sess"]),
                            ("idx.region.local", _norm(q["reg"]), got["regl"]),
-                           ("idx.region.full", _norm(q["reg"]), got["regf"]),
+                           ("idx.region.full", _norm(q["reg"]), [x for x in got["regf"] if x[0] in tracked]),
                            ("links", _norm_links(q["links"]), got["links"])):
         if exp != g:
             bad.append((clause, exp, g))
@@ -594,11 +596,11 @@ async def _canonical(g, U, ei):
         await w.step(g.edges[pe][1])
         hist.append(g.edges[pe][1])
         after |= set(g.edges[pe][4])
-    if compare_state(g.sobs[s], w.observe()):
+    if compare_state(g.sobs[s], w.observe(), g.states[s][1]):
         w.close()
         return None
     out = await w.step(act)
-    bad = compare_step(o, g.states[d][2], out) + compare_state(g.sobs[d], w.observe())
+    bad = compare_step(o, g.states[d][2], out) + compare_state(g.sobs[d], w.observe(), g.states[d][1])
     w.close()
     return (hist + [act], bad, after) if bad else None
 
@@ -614,7 +616,7 @@ async def _replay_async(walks):
             out = await w.step(act)
             hist.append(act)
             steps += 1
-            bad = compare_step(o, g.states[d][2], out) + compare_state(g.sobs[d], w.observe())
+            bad = compare_step(o, g.states[d][2], out) + compare_state(g.sobs[d], w.observe(), g.states[d][1])
             if bad:
                 short = await _canonical(g, U, ei)
                 if short is not None:
@@ -632,6 +634,66 @@ async def _replay_async(walks):
 def _replay_chunk(walks):
     _install_logging()
     return asyncio.run(_replay_async(walks))
+
+
+LOOP_PRIORITY = {"Kill": 0, "Teardown": 1, "Announce": 2, "Props": 3, "Touch": 4}
+
+
+def _selfloop_pairs(g: CGraph, budget: int):
+    """(loop edge, following edge) for edges that leave the abstract state unchanged: the implementation's
+    HIDDEN state may be disturbed by an abstractly idle action.  The tours continue after every self-loop with
+    ONE following edge; this pass replays shortest path + loop + next for further followers, loops of kills
+    and teardowns first, thinned deterministically to the budget."""
+    loops = [i for i, e in enumerate(g.edges) if e[0] == e[2] and e[0] in g.parent]
+    loops.sort(key=lambda i: (LOOP_PRIORITY.get(g.edges[i][1]["n"], 9), i))
+    total = sum(len(g.out[g.edges[i][0]]) for i in loops)
+    pairs = []
+    if total <= budget:
+        for i in loops:
+            pairs += [(i, j) for j in g.out[g.edges[i][0]]]
+        return pairs, total, len(loops)
+    # every loop gets the same share of followers, taken at a stride that rotates with the loop
+    share = max(1, budget // max(1, len(loops)))
+    for n, i in enumerate(loops):
+        outs = g.out[g.edges[i][0]]
+        step = max(1, len(outs) // share)
+        pairs += [(i, outs[k]) for k in range(n % step, len(outs), step)][:share]
+        if len(pairs) >= budget:
+            break
+    return pairs, total, len(loops)
+
+
+async def _pairs_async(pairs):
+    g, U = _G, _U
+    fails, steps = [], 0
+    for li, ni in pairs:
+        s = g.edges[li][0]
+        w = World(U)
+        hist, after = [], set()
+        for pe in g.path_to(s):
+            await w.step(g.edges[pe][1])
+            hist.append(g.edges[pe][1])
+            after |= set(g.edges[pe][4])
+            steps += 1
+        for ei in (li, ni):
+            s0, act, d, o, tags = g.edges[ei]
+            out = await w.step(act)
+            hist.append(act)
+            steps += 1
+            bad = compare_step(o, g.states[d][2], out) + compare_state(g.sobs[d], w.observe(), g.states[d][1])
+            if bad:
+                fails.append({"history": list(hist), "failed": [list(b) for b in bad[:4]],
+                              "shortest_path_reproduces": False, "after_self_loop": ei == ni,
+                              "features": classify(act, bad, tags, after)})
+                break
+            after |= set(tags)
+        w.close()
+    return fails, steps, 0
+
+
+def _pairs_chunk(pairs):
+    _install_logging()
+    return asyncio.run(_pairs_async(pairs))
 
 
 def _mbt_cfg(U, akinds, tkinds, reqlocals, depth=99):
@@ -734,7 +796,7 @@ REQUIRED_SITUATIONS = [
     "request.cancelled-by:Announce", "request.cancelled-by:Kill", "request.cancelled-by:Teardown"]
 
 
-def _b1(chk: Check, U, akinds, tkinds, reqlocals, label, depth=99, maxlen=60):
+def _b1(chk: Check, U, akinds, tkinds, reqlocals, label, depth=99, maxlen=60, pair_budget=0):
     global _G, _U
     g = _export(chk, _mbt_cfg(U, akinds, tkinds, reqlocals, depth), label)
     _G, _U = g, U
@@ -744,6 +806,13 @@ def _b1(chk: Check, U, akinds, tkinds, reqlocals, label, depth=99, maxlen=60):
         raise common.MachineryError("B1 %s: tours cover %d of %d edges" % (label, len(covered), len(g.edges)))
     nchunks = common.NCPU * 4
     results = common.parallel_map(_replay_chunk, [c for c in (walks[i::nchunks] for i in range(nchunks)) if c])
+    pairs, npairs, nloops = _selfloop_pairs(g, pair_budget)
+    followed = sum(1 for wk in walks for a, b in zip(wk, wk[1:]) if g.edges[a][0] == g.edges[a][2])
+    st = chk.cov.setdefault("b1_selfloops", {})
+    st[label] = {"loop_edges": nloops, "loop_x_follower_pairs": npairs, "pairs_in_tours": followed,
+                 "pairs_replayed_extra": len(pairs)}
+    if pairs:
+        results += common.parallel_map(_pairs_chunk, [c for c in (pairs[i::nchunks] for i in range(nchunks)) if c])
     skipped = 0
     for fails, steps, sk in results:
         skipped += sk
@@ -1183,24 +1252,25 @@ def run(chk: Check):
     if chk.tier == "quick":
         plan = [("mc", None, (U2, 99, "2obj")),
                 ("mc", None, (U2S, 99, "2obj-2loc-requests")),
-                ("b1", _b1, (U2, ["full"], TK, [], "2obj-full")),
-                ("b1", _b1, (U2L, ["compressed", "cachedHit"], ["cachedSame"], [], "2obj-2loc-compressed-cached")),
-                ("b1", _b1, (U2S, AK, TK, [1, 2], "2obj-2loc-requests")),
-                ("b1", _b1, (U3R, AK, TK, [], "3obj-1region")),
+                ("b1", _b1, (dict(U2, unknown=[]), ["full"], TK, [], "2obj-R1-R2-full", 99, 60, 4000)),
+                ("b1", _b1, (U2L, AK, TK, [], "2obj-2loc-all-kinds", 99, 60, 3000)),
+                ("b1", _b1, (U2S, AK, TK, [1, 2], "2obj-2loc-requests", 99, 60, 3000)),
+                ("b1", _b1, (U3R, AK, TK, [], "3obj-1region", 99, 60, 2000)),
                 ("b2", _b2, (U3D, 36, 60, "3obj-dense")),
                 ("b2", _b2, (U5, 108, 60, "5obj"))]
     else:
         U2R = dict(U2, trackable=["R1"], maxpending=2)
         plan = [("mc", None, (U2P, 99, "2obj-requests")),
-                ("mc", None, (U3, 99, "3obj")),
-                ("b1", _b1, (U2, AK, TK, [], "2obj-all")),
-                ("b1", _b1, (U2R, AK, TK, [1, 2], "2obj-R1-R3-requests")),
-                ("b1", _b1, (dict(U3, trackable=["R1"]), AK, TK, [], "3obj-R1-R3")),
-                ("b1", _b1, (dict(U3, unknown=[]), ["full"], ["terse"], [], "3obj-R1-R2-full")),
+                ("mc", None, (dict(U3, unknown=[]), 99, "3obj-R1-R2")),
+                ("b1", _b1, (U2, AK, TK, [], "2obj-all", 99, 60, 40000)),
+                ("b1", _b1, (U2R, AK, TK, [1, 2], "2obj-R1-R3-requests", 99, 60, 30000)),
+                ("b1", _b1, (dict(U3, trackable=["R1"]), ["full"], ["terse"], [], "3obj-R1-R3-full", 99, 60, 30000)),
                 ("b2", _b2, (U3D, 400, 60, "3obj-dense")),
                 ("b2", _b2, (U5, 1000, 80, "5obj"))]
     only = [x for x in os.environ.get("C14_ONLY", "").split(",") if x]      # development aid: mc,b1,b2 or a label
-    plan = [st for st in plan if not only or st[0] in only or st[2][-1] in only]
+    def label_of(st):
+        return st[2][4] if st[0] == "b1" else st[2][-1]
+    plan = [st for st in plan if not only or st[0] in only or label_of(st) in only]
     mcs = [_McRun(chk, *args) for kind, fn, args in plan if kind == "mc"]
     try:
         for kind, fn, args in plan:
